@@ -17,8 +17,9 @@ fn intersects_i64(a: &Geometry<i64>, b: &Geometry<i64>) -> bool {
 pub fn run(mut run: Run) -> i32 {
     let mut cfg = super::c01::cfg(&run.ctx);
     if run.ctx.quick() {
-        cfg.mls_stride = 40;
-        cfg.mls3_stride = 6;
+        cfg.mls_stride = 70;
+        cfg.mls3_stride = 10;
+        cfg.mpg_stride = 30;
     }
     let shapes = families(&cfg);
     let n = shapes.len();
@@ -36,62 +37,6 @@ pub fn run(mut run: Run) -> i32 {
         "integer lattice alphabet; domain = valid geometries, simple linework, single-dimension collections with disjoint members".into(),
         "masks are applied to the reference matrix, not to geo's relate".into(),
     ];
-    run.stage("pairs", n * n, |idx, acc| {
-        let (ia, ib) = (idx / n, idx % n);
-        let (a, b) = (&shapes[ia], &shapes[ib]);
-        let truth = mstr(&de9im(&a.ag, &b.ag));
-        let exp = [m_intersects(&truth), m_contains(&truth), m_within(&truth)];
-        acc.sample(idx, || json!({"a": a.wkt(), "b": b.wkt(), "true_matrix": truth, "intersects/contains/within": exp}));
-        let got = [
-            ("intersects", exp[0], guard(|| intersects_concrete(&a.g, &b.g))),
-            ("contains", exp[1], guard(|| contains_concrete(&a.g, &b.g))),
-            ("within", exp[2], guard(|| within_concrete(&a.g, &b.g))),
-            ("intersects<i64>", exp[0], guard(|| intersects_i64(&ishapes[ia], &ishapes[ib]))),
-            ("intersects[enum]", exp[0], guard(|| intersects_enum(&a.g, &b.g))),
-            ("contains[enum]", exp[1], guard(|| contains_enum(&a.g, &b.g))),
-        ];
-        for (op, e, g) in got {
-            acc.evals += 1;
-            acc.class(format!("{} {}x{} {} {}", op, a.ty(), b.ty(), truth, e));
-            let gs = match g {
-                Ok(v) => v.to_string(),
-                Err(p) => format!("panic:{}", p),
-            };
-            if gs != e.to_string() {
-                acc.viol(format!("{} {}x{} matrix={} expected={} got={}", op, a.ty(), b.ty(), truth, e, gs), idx, || {
-                    json!({"a": a.wkt(), "b": b.wkt(), "true_matrix": truth, "expected": e, "got": gs})
-                });
-            }
-        }
-        // Coord-operand impls
-        if let Geometry::Point(p) = &b.g {
-            let co = p.0;
-            #[allow(unused_imports)]
-            use crate::ops::{NoC, NoI, YesC, YesI, P};
-            let got = [
-                ("intersects<Coord>", exp[0], guard(|| with_geom!(&a.g, x => (&P(x, &co)).go_i()))),
-                ("Coord.intersects", exp[0], guard(|| with_geom!(&a.g, x => (&P(&co, x)).go_i()))),
-                ("contains<Coord>", exp[1], guard(|| with_geom!(&a.g, x => (&P(x, &co)).go_c()))),
-            ];
-            for (op, e, g) in got {
-                acc.evals += 1;
-                let gs = match g {
-                    Ok(Some(v)) => v.to_string(),
-                    Ok(None) => {
-                        acc.count(&format!("not implemented: {} {}", op, a.ty()), 1);
-                        continue;
-                    }
-                    Err(p) => format!("panic:{}", p),
-                };
-                acc.class(format!("{} {} {} {}", op, a.ty(), truth, e));
-                if gs != e.to_string() {
-                    acc.viol(format!("{} {} matrix={} expected={} got={}", op, a.ty(), truth, e, gs), idx, || {
-                        json!({"a": a.wkt(), "coord": format!("{:?}", co), "true_matrix": truth, "expected": e, "got": gs})
-                    });
-                }
-            }
-        }
-    });
     // coordinate_position on the half-step lattice, one step outside the bounding box
     let span = 2 * (cfg.n.max(4)) + 4; // k/2 for k in -2 .. 2n+1
     let nq = (span * span) as usize;
@@ -144,5 +89,106 @@ pub fn run(mut run: Run) -> i32 {
             }
         }
     });
+    run.stage("pairs", n * n, |idx, acc| {
+        let (ia, ib) = (idx / n, idx % n);
+        let (a, b) = (&shapes[ia], &shapes[ib]);
+        let truth = mstr(&de9im(&a.ag, &b.ag));
+        let exp = [m_intersects(&truth), m_contains(&truth), m_within(&truth)];
+        acc.sample(idx, || json!({"a": a.wkt(), "b": b.wkt(), "true_matrix": truth, "intersects/contains/within": exp}));
+        let got = [
+            ("intersects", exp[0], guard(|| intersects_concrete(&a.g, &b.g))),
+            ("contains", exp[1], guard(|| contains_concrete(&a.g, &b.g))),
+            ("within", exp[2], guard(|| within_concrete(&a.g, &b.g))),
+            ("intersects<i64>", exp[0], guard(|| intersects_i64(&ishapes[ia], &ishapes[ib]))),
+            ("intersects[enum]", exp[0], guard(|| intersects_enum(&a.g, &b.g))),
+            ("contains[enum]", exp[1], guard(|| contains_enum(&a.g, &b.g))),
+        ];
+        // Contains on the integer instantiation, where the impl exists for a non-float scalar
+        {
+            #[allow(unused_imports)]
+            use crate::ops::{NoC, YesC, P};
+            let r = guard(|| with_geom!(&ishapes[ia], x => with_geom!(&ishapes[ib], y => (&P(x, y)).go_c())));
+            match r {
+                Ok(None) => acc.count("Contains<i64> not implemented for some type pairs (skipped)", 1),
+                Ok(Some(v)) => {
+                    acc.evals += 1;
+                    acc.class(format!("contains<i64> {}x{} {} {}", a.ty(), b.ty(), truth, exp[1]));
+                    if v != exp[1] {
+                        acc.viol(format!("contains<i64> {}x{} matrix={} expected={} got={}", a.ty(), b.ty(), truth, exp[1], v), idx, || {
+                            json!({"a": a.wkt(), "b": b.wkt(), "true_matrix": truth, "expected": exp[1], "got": v})
+                        });
+                    }
+                }
+                Err(p) => acc.viol(format!("contains<i64> {}x{} panic", a.ty(), b.ty()), idx, || json!({"a": a.wkt(), "b": b.wkt(), "panic": p})),
+            }
+        }
+        for (op, e, g) in got {
+            acc.evals += 1;
+            acc.class(format!("{} {}x{} {} {}", op, a.ty(), b.ty(), truth, e));
+            let gs = match g {
+                Ok(v) => v.to_string(),
+                Err(p) => format!("panic:{}", p),
+            };
+            if gs != e.to_string() {
+                acc.viol(format!("{} {}x{} matrix={} expected={} got={}", op, a.ty(), b.ty(), truth, e, gs), idx, || {
+                    json!({"a": a.wkt(), "b": b.wkt(), "true_matrix": truth, "expected": e, "got": gs})
+                });
+            }
+        }
+        // Coord-operand impls
+        if let Geometry::Point(p) = &b.g {
+            let co = p.0;
+            #[allow(unused_imports)]
+            use crate::ops::{NoC, NoI, YesC, YesI, P};
+            let got = [
+                ("intersects<Coord>", exp[0], guard(|| with_geom!(&a.g, x => (&P(x, &co)).go_i()))),
+                ("Coord.intersects", exp[0], guard(|| with_geom!(&a.g, x => (&P(&co, x)).go_i()))),
+                ("contains<Coord>", exp[1], guard(|| with_geom!(&a.g, x => (&P(x, &co)).go_c()))),
+            ];
+            for (op, e, g) in got {
+                acc.evals += 1;
+                let gs = match g {
+                    Ok(Some(v)) => v.to_string(),
+                    Ok(None) => {
+                        acc.count(&format!("not implemented: {} {}", op, a.ty()), 1);
+                        continue;
+                    }
+                    Err(p) => format!("panic:{}", p),
+                };
+                acc.class(format!("{} {} {} {}", op, a.ty(), truth, e));
+                if gs != e.to_string() {
+                    acc.viol(format!("{} {} matrix={} expected={} got={}", op, a.ty(), truth, e, gs), idx, || {
+                        json!({"a": a.wkt(), "coord": format!("{:?}", co), "true_matrix": truth, "expected": e, "got": gs})
+                    });
+                }
+            }
+        }
+    });
+    if !run.ctx.quick() {
+        let g4 = families(&super::c01::cfg_g4());
+        let n4 = g4.len();
+        run.stage("pairs-G4", n4 * n4, |idx, acc| {
+            let (a, b) = (&g4[idx / n4], &g4[idx % n4]);
+            let truth = mstr(&de9im(&a.ag, &b.ag));
+            let exp = [m_intersects(&truth), m_contains(&truth), m_within(&truth)];
+            for (op, e, g) in [
+                ("intersects", exp[0], guard(|| intersects_concrete(&a.g, &b.g))),
+                ("contains", exp[1], guard(|| contains_concrete(&a.g, &b.g))),
+                ("within", exp[2], guard(|| within_concrete(&a.g, &b.g))),
+            ] {
+                acc.evals += 1;
+                acc.class(format!("{} {}x{} {} {}", op, a.ty(), b.ty(), truth, e));
+                let gs = match g {
+                    Ok(v) => v.to_string(),
+                    Err(p) => format!("panic:{}", p),
+                };
+                if gs != e.to_string() {
+                    acc.viol(format!("{} {}x{} matrix={} expected={} got={}", op, a.ty(), b.ty(), truth, e, gs), idx, || {
+                        json!({"a": a.wkt(), "b": b.wkt(), "true_matrix": truth, "expected": e, "got": gs})
+                    });
+                }
+            }
+        });
+    }
     run.finish()
 }
